@@ -240,7 +240,7 @@ def parallel(jobs, maxpar=8):
         return [f.result() for f in futs]
 
 
-def validate_chunks(module, const_lines, prefix, nchunks, wd, timeout=3600, heap="6g", maxpar=8,
+def validate_chunks(module, const_lines, prefix, nchunks, wd, timeout=3600, heap="4g", maxpar=8,
                     postcondition="Accepted", spec="Spec", step_mode=False):
     """Validate <prefix>.<k>.ndjson (k < nchunks) against trace specification `module`.
     Returns (records, rejects) where rejects is a list of (chunk, line, tag)."""
